@@ -515,6 +515,15 @@ func runC16(c *fw.Ctx) {
 	r.section("append-proofs", r.secAppend)
 	r.section("free-proofs", r.secFree)
 	r.section("diff-proofs", r.secDiff)
+	r.section("library-prover-path(multi-sector storage proofs)", func() {
+		c16ProverPath(r.c, func(op, out string) {
+			if r.c.Model != nil {
+				r.ops = append(r.ops, op)
+				r.outs = append(r.outs, out)
+				r.cost = append(r.cost, 30+len(op)/40)
+			}
+		})
+	})
 	tGo := time.Since(t0)
 	t1 := time.Now()
 	r.compareAll()
